@@ -363,6 +363,13 @@ def gen_cases(rng, tier):
             g0 = gen.structural(rng, maxn if rng.random() < 0.9 else maxn + 8)
         g, style = gen.weigh(rng, g0)
         graphs.append((g, style))
+    # complete graphs whose light edges sit among the LAST vertices: in the all-vertices branch (|S| >= n) a partition of the vertices that drops the
+    # tail (floor instead of ceil stride, P not dividing n) loses exactly the searches that find the minimum (seeded changes C04/m1, C04/r6m1)
+    for n in ((8, 9, 9, 13) if tier == "quick" else (8, 8, 9, 9, 11, 13, 14)):
+        t = rng.choice([3, 4])
+        es = [(u, v, (rng.randint(1, 3) if u >= n - t else rng.randint(20, 60))) for u in range(n) for v in range(u + 1, n)]
+        rng.shuffle(es)
+        graphs.append(((n, es), "tail-light"))
     cases = []
     pseed = 0
     for gi, (g, style) in enumerate(graphs):
